@@ -1,6 +1,6 @@
 (** Properties/C02.v — "The newest cross-reference entry for an object always wins".
     Only statements, each closed by [exact] of a lemma proved in XRef/. *)
-From PdfV Require Import Base.Prelude Gen.Generated XRef.Model XRef.Spec XRef.MergeProofs XRef.StreamProofs XRef.FrontProofs XRef.TableProofs XRef.At XRef.AtProofs Syn.Prim Syn.Parser Syn.Spells Syn.RenderProofs.
+From PdfV Require Import Base.Prelude Gen.Generated XRef.Model XRef.Spec XRef.MergeProofs XRef.StreamProofs XRef.FrontProofs XRef.TableProofs XRef.At XRef.AtProofs XRef.AtExample Syn.Prim Syn.Parser Syn.Spells Syn.RenderProofs.
 Set Warnings "-notation-overridden".   (* also ends the import list for the dependency scanner of tools/vplib *)
 
 (** For every well-formed history, every subsection split of every update and every /Size (growing or not):
@@ -208,3 +208,16 @@ Proof.
          | |- _ = _ => reflexivity
          end.
 Qed.
+(** non-vacuity of C02_resolve_latest: every premise holds for a concrete file (derived THROUGH the theorem) … *)
+Example C02_resolve_latest_example :
+  exists t, load (xref_at_tables no_resolve (fun _ => 0)) ex1_file = Ok (0, t, 0) /\
+    forall n fuel, n < 2 ->
+      stored ex1_file 0 n (latest ex1_h n)
+        (resolve_ref prim (obj_at_parse no_resolve false F_ANY) (fun _ _ _ => Err E_OTHER) (S fuel) ex1_file 0 t n).
+Proof. exact resolve_latest_example. Qed.
+(** … and the functions compute exactly that on the file *)
+Example C02_resolve_latest_example_computed :
+  exists t, load (xref_at_tables no_resolve (fun _ => 0)) ex1_file = Ok (0, t, 0) /\
+    resolve_ref prim (obj_at_parse no_resolve false F_ANY) (fun _ _ _ => Err E_OTHER) 2 ex1_file 0 t 1 = Ok (PInt 5) /\
+    resolve_ref prim (obj_at_parse no_resolve false F_ANY) (fun _ _ _ => Err E_OTHER) 2 ex1_file 0 t 0 = Err E_FREE.
+Proof. exact resolve_latest_example_computed. Qed.
